@@ -11,13 +11,18 @@
 //!   * `metamorphic`       strictly increasing maps, sample swap, series reversal
 //!
 //!   * `signed_zero`       `-0.0` and `+0.0` are the same number, hence a tie
+//!   * `selection`         `selection_adjusted_change_point`: documented None rule, located split,
+//!                         tainted p / superiority vs the two-sample primitives, clamp and early
+//!                         exit, complete-orbit brute force for n <= 20, strictly increasing maps
+//!   * `std_dev`           `mean` / `sample_std_dev` vs exact integer arithmetic, affine maps
 //!
 //! All expected values come from `p_stats` (src/lib.rs), which never calls `cbh_stats`.
 //! Data never contains NaN or infinities; `-0.0` appears only in the `signed_zero` section.
 
 use cbh_stats::{
-    MannWhitneyU, benjamini_hochberg, mann_kendall, mann_whitney_superiority, mann_whitney_u_pvalue, median,
-    median_in_place, pettitt, student_t_two_sided_p, theil_sen_line,
+    MannWhitneyU, SelectionAdjustedChangePoint, SelectionCalibration, benjamini_hochberg, mann_kendall,
+    mann_whitney_superiority, mann_whitney_u_pvalue, mean, median, median_in_place, pettitt, sample_std_dev,
+    selection_adjusted_change_point, student_t_two_sided_p, theil_sen_line,
 };
 use p_stats::*;
 use proptest::prelude::*;
@@ -1017,6 +1022,692 @@ fn check_zero(case: &ZeroCase, ctx: &mut Ctx) -> Verdict {
 }
 
 // ================================================================================================
+// selection-adjusted change point
+
+const SEL_BUDGETS: [usize; 6] = [1, 2, 24, 720, 5040, 100_000];
+/// analytic weights in (0, 1); the last one makes the weighted analytic component 1.0 (no
+/// information) for every p-value that can occur here, which isolates the permutation component
+const SEL_WEIGHTS: [f64; 4] = [0.05, 0.5, 0.95, 1e-12];
+/// analytic acceptance boundaries in (0, 1]
+const SEL_ACCEPT: [f64; 5] = [f64::MIN_POSITIVE, 1e-6, 0.01, 0.5, 1.0];
+/// rejection boundaries in (0, 1]; 0.5, 0.2, 0.1 are attained exactly by small exact tails (2/4,
+/// 2/10, 2/20), which exercises the documented "at or above"
+const SEL_REJECT: [f64; 8] = [1.0, 0.5, 0.05, 0.025, 1e-3, 1e-9, 0.2, 0.1];
+
+#[derive(Debug, Clone, Serialize, Deserialize)]
+struct SelCase {
+    /// value map (see `val`, rank-only magnitudes): 1 = k/8 (the usual one)
+    map: u8,
+    levels: Vec<i64>,
+    min_regime: usize,
+    budget_idx: u8,
+    weight_idx: u8,
+    accept_idx: u8,
+    reject_idx: u8,
+    /// strictly increasing re-map x -> a*x+b for the metamorphic part
+    a_idx: u8,
+    b_idx: u8,
+}
+
+fn sel_strategy() -> impl Strategy<Value = SelCase> {
+    let mr = prop_oneof![3 => Just(1usize), 3 => Just(2usize), 2 => Just(3usize), 1 => Just(4usize), 1 => Just(5usize), 1 => Just(6usize)];
+    // `focus` = short, heavily tied series with a generous budget and lenient boundaries, so that
+    // the complete orbit is enumerated (and can be brute-forced by the oracle) often
+    let shape = (prop::bool::weighted(0.35), mr).prop_flat_map(|(focus, mr)| {
+        let n = if focus {
+            (0usize..=5).prop_map(move |d| (2 * mr + d).min(12)).boxed()
+        } else {
+            // n is drawn relative to min_regime for a third of the cases so that the single-split
+            // (n = 2*min_regime) and barely-(in)admissible shapes are frequent
+            prop_oneof![
+                2 => 0usize..=12,
+                3 => (0usize..=3).prop_map(move |d| 2 * mr + d),
+                1 => (0usize..=2).prop_map(move |d| (2 * mr).saturating_sub(1 + d)),
+                4 => 8usize..=40,
+                1 => 41usize..=56,
+                1 => 57usize..=120,
+            ]
+            .boxed()
+        };
+        let w = if focus {
+            prop_oneof![3 => Just(1i64), 2 => Just(2i64), 1 => Just(5i64)].boxed()
+        } else {
+            prop_oneof![1 => Just(0i64), 3 => Just(1i64), 2 => Just(2i64), 2 => Just(5i64), 1 => Just(30i64), 1 => Just(1000i64)].boxed()
+        };
+        let budget = if focus {
+            prop_oneof![1 => Just(3u8), 2 => Just(4u8), 3 => Just(5u8)].boxed()
+        } else {
+            prop_oneof![1 => Just(0u8), 1 => Just(1u8), 1 => Just(2u8), 2 => Just(3u8), 2 => Just(4u8), 3 => Just(5u8)].boxed()
+        };
+        let accept = if focus { (0u8..2).boxed() } else { (0u8..5).boxed() };
+        let reject = if focus {
+            prop_oneof![4 => Just(0u8), 1 => Just(1u8), 1 => Just(2u8), 1 => Just(6u8), 1 => Just(7u8)].boxed()
+        } else {
+            prop_oneof![4 => Just(0u8), 1 => Just(1u8), 1 => Just(2u8), 1 => Just(3u8), 1 => Just(4u8), 1 => Just(5u8), 1 => Just(6u8), 1 => Just(7u8)].boxed()
+        };
+        (Just(mr), n, w, (budget, 0u8..4, accept, reject))
+    });
+    let map = prop_oneof![8 => Just(1u8), 1 => Just(0u8), 1 => Just(2u8), 1 => Just(3u8), 1 => Just(4u8)];
+    let trend = prop_oneof![3 => Just(0i64), 1 => -4i64..=4];
+    (shape, map, trend, -3i64..=3, any::<u16>(), 0u8..8, 0u8..6)
+        .prop_flat_map(|((mr, n, w, calib), map, trend, step, cp, a_idx, b_idx)| {
+            (prop::collection::vec(-w..=w, n), Just((mr, map, w, trend, step, cp, calib, a_idx, b_idx)))
+        })
+        .prop_map(|(noise, (mr, map, w, trend, step, cp, calib, a_idx, b_idx))| {
+            let n = noise.len() as i64;
+            let scale = w.max(1);
+            // change position anywhere in 0..=n (0 and n = no step inside the series)
+            let cp = vcommon::pick_index(cp, noise.len() + 1) as i64;
+            let levels = noise
+                .iter()
+                .enumerate()
+                .map(|(i, &e)| {
+                    let i = i as i64;
+                    e + trend * i * scale / (4 * n.max(1)) + if i >= cp { step * scale } else { 0 }
+                })
+                .collect();
+            SelCase {
+                map,
+                levels,
+                min_regime: mr,
+                budget_idx: calib.0,
+                weight_idx: calib.1,
+                accept_idx: calib.2,
+                reject_idx: calib.3,
+                a_idx,
+                b_idx,
+            }
+        })
+}
+
+fn sel_calibration(case: &SelCase) -> SelectionCalibration {
+    SelectionCalibration {
+        permutation_order_budget: std::num::NonZero::new(SEL_BUDGETS[case.budget_idx as usize]).expect("budgets are nonzero"),
+        analytic_weight: SEL_WEIGHTS[case.weight_idx as usize],
+        accept_analytic_below: SEL_ACCEPT[case.accept_idx as usize],
+        reject_at_or_above: SEL_REJECT[case.reject_idx as usize],
+    }
+}
+
+/// Number of distinct orderings of the multiset, `n!/prod t_i!`, saturating at `u128::MAX`.
+fn distinct_orderings(groups: &[u64]) -> u128 {
+    let mut seen = 0u64;
+    let mut m: u128 = 1;
+    for &t in groups {
+        seen += t;
+        m = m.saturating_mul(binomial(seen, t));
+    }
+    m
+}
+
+/// In-place lexicographic successor; `false` after the last ordering. On a sorted multiset this
+/// visits every distinct ordering exactly once.
+fn next_ordering(v: &mut [u64]) -> bool {
+    let n = v.len();
+    if n < 2 {
+        return false;
+    }
+    let mut i = n - 1;
+    while i > 0 && v[i - 1] >= v[i] {
+        i -= 1;
+    }
+    if i == 0 {
+        return false;
+    }
+    let mut j = n - 1;
+    while v[j] <= v[i - 1] {
+        j -= 1;
+    }
+    v.swap(i - 1, j);
+    v[i..].reverse();
+    true
+}
+
+/// What the documentation of `selection_adjusted_change_point` defines for a series whose every
+/// distinct ordering is enumerated, in integers: p-values are kept as exact rationals
+/// `(numerator, denominator)` and compared by cross-multiplication.
+struct OrbitRef {
+    /// Pettitt first-maximum split of the observed ordering
+    index: usize,
+    /// exact two-sided Mann-Whitney p at that split
+    p_obs: (u128, u128),
+    /// orderings whose selected, admissible split scores `<= p_obs` (inadmissible = 1.0)
+    extreme: u128,
+    orderings: u128,
+}
+
+fn orbit_reference(values: &[f64], min_regime: usize) -> Option<OrbitRef> {
+    let n = values.len();
+    assert!((2..=20).contains(&n));
+    let r2 = doubled_midranks(values);
+    let total2: u64 = r2.iter().sum();
+    let half = n / 2;
+    let mut asc = r2.clone();
+    asc.sort_unstable();
+    // counts[k][s] = number of k-subsets of the rank multiset (as positions) with doubled rank sum s
+    let width = total2 as usize + 1;
+    let mut counts = vec![vec![0u128; width]; half + 1];
+    counts[0][0] = 1;
+    for &r in &asc {
+        for k in (0..half).rev() {
+            for s in 0..width - r as usize {
+                let c = counts[k][s];
+                if c != 0 {
+                    counts[k + 1][s + r as usize] += c;
+                }
+            }
+        }
+    }
+    // doubled minority tail, capped at 1, as a rational, for every attainable (size, sum)
+    let tails: Vec<Vec<Option<(u128, u128)>>> = counts
+        .iter()
+        .enumerate()
+        .map(|(k, row)| {
+            let total: u128 = row.iter().sum();
+            assert_eq!(total, binomial(n as u64, k as u64), "oracle: every subset counted once");
+            let mut le = 0u128;
+            row.iter()
+                .map(|&c| {
+                    le += c;
+                    let ge = total - le + c;
+                    (c > 0).then(|| ((2 * le.min(ge)).min(total), total))
+                })
+                .collect()
+        })
+        .collect();
+    let tail = |k: usize, s: u64| -> (u128, u128) { tails[k][s as usize].expect("an observed sum is attainable") };
+    // the selected split of one ordering and the p-value there (None = inadmissible)
+    let score = |order: &[u64]| -> (usize, Option<(u128, u128)>) {
+        let mut prefix = 0u64;
+        let (mut best, mut best_t, mut best_prefix) = (-1i64, 1usize, 0u64);
+        for t in 1..n {
+            prefix += order[t - 1];
+            let u = (prefix as i64 - (t as i64) * (n as i64 + 1)).abs();
+            if u > best {
+                best = u;
+                best_t = t;
+                best_prefix = prefix;
+            }
+        }
+        if best_t.min(n - best_t) < min_regime {
+            return (best_t, None);
+        }
+        let p = if best_t <= n - best_t { tail(best_t, best_prefix) } else { tail(n - best_t, total2 - best_prefix) };
+        (best_t, Some(p))
+    };
+    let (index, Some(p_obs)) = score(&r2) else {
+        return None;
+    };
+    let mut cur = asc;
+    let (mut extreme, mut orderings) = (0u128, 0u128);
+    loop {
+        let (_, p) = score(&cur);
+        let (a, b) = p.unwrap_or((1, 1));
+        // a/b <= p_obs.0/p_obs.1
+        if a * p_obs.1 <= p_obs.0 * b {
+            extreme += 1;
+        }
+        orderings += 1;
+        if !next_ordering(&mut cur) {
+            break;
+        }
+    }
+    Some(OrbitRef { index, p_obs, extreme, orderings })
+}
+
+fn sel_bits(r: Option<SelectionAdjustedChangePoint>) -> Option<(usize, u64, u64, u64)> {
+    r.map(|r| (r.index, r.tainted_p.to_bits(), r.adjusted_p.to_bits(), r.superiority.to_bits()))
+}
+
+fn check_selection(case: &SelCase, ctx: &mut Ctx) -> Verdict {
+    let v = to_values(case.map, &case.levels, true);
+    assert_order_iso(&case.levels, &v);
+    let n = v.len();
+    let mr = case.min_regime;
+    let cal = sel_calibration(case);
+    let (w, accept, reject) = (cal.analytic_weight, cal.accept_analytic_below, cal.reject_at_or_above);
+    let budget = cal.permutation_order_budget.get();
+    assert!(mr >= 1 && w > 0.0 && w < 1.0 && accept > 0.0 && accept <= 1.0 && reject > 0.0 && reject <= 1.0, "generator: valid calibrations only");
+    let show = || format!("series {v:?}, min_regime {mr}, {cal:?}");
+
+    // (a) no panic for valid inputs
+    let got = match vcommon::catch(|| selection_adjusted_change_point(&v, mr, cal)) {
+        Ok(g) => g,
+        Err(msg) => fail!("C20/selection/panic", "selection_adjusted_change_point panicked on valid input: {msg}; {}", show()),
+    };
+
+    ctx.classify(match n {
+        0..=1 => "n<2",
+        2..=12 => "n:2-12",
+        13..=40 => "n:13-40",
+        41..=56 => "n:41-56",
+        _ => "n:57-120",
+    });
+    ctx.classify(&format!("map:{}", case.map));
+    let groups = group_sizes(&v);
+    let has_ties = groups.iter().any(|&t| t > 1);
+    ctx.classify(if n == 0 {
+        "ties:empty"
+    } else if groups.len() == 1 {
+        "ties:constant"
+    } else if !has_ties {
+        "ties:none"
+    } else if groups.len() <= 3 {
+        "ties:heavy(<=3 distinct values)"
+    } else if 2 * groups.len() <= n {
+        "ties:dense(distinct <= n/2)"
+    } else {
+        "ties:some"
+    });
+
+    // (b) documented: None iff Pettitt cannot locate a split or the located split does not leave
+    // min_regime values on each side. `pettitt().index` and the result's `index` are both
+    // documented as the index where the after regime begins.
+    let located = pettitt(&v);
+    let located_ref = pettitt_reference(&v);
+    let want_some = located.is_some_and(|c| c.index >= mr && n - c.index >= mr);
+    let Some(r) = got else {
+        ensure!(
+            !want_some,
+            "C20/selection/none-for-reportable-split",
+            "returned None but pettitt locates {located:?} which leaves >= {mr} values on each side; {}",
+            show()
+        );
+        ctx.classify(if located.is_none() { "result:none(no split, n<2)" } else { "result:none(split leaves < min_regime)" });
+        // the map invariance of None is covered below only for Some; None depends on ranks alone too
+        return Ok(());
+    };
+    ctx.classify("result:some");
+    let Some(located) = located else {
+        fail!("C20/selection/some-without-split", "returned {r:?} but pettitt locates no split; {}", show());
+    };
+    ensure!(
+        want_some,
+        "C20/selection/some-for-unreportable-split",
+        "returned {r:?} but the Pettitt split {} leaves fewer than {mr} values on a side (n = {n}); {}",
+        located.index,
+        show()
+    );
+    ensure!(
+        r.index == located.index && Some(r.index) == located_ref.as_ref().map(|p| p.index),
+        "C20/selection/index-mismatch",
+        "index {} but pettitt() locates {} (direct sign summation: {:?}); {}",
+        r.index,
+        located.index,
+        located_ref.map(|p| p.index),
+        show()
+    );
+    ensure!(
+        mr <= r.index && r.index <= n - mr,
+        "C20/selection/index-out-of-range",
+        "index {} outside [{mr}, {}]; {}",
+        r.index,
+        n - mr,
+        show()
+    );
+
+    // (a) ranges
+    ensure!(p_ok(r.tainted_p), "C20/selection/p-range", "tainted_p = {:e} outside [1e-15,1]; {}", r.tainted_p, show());
+    ensure!(p_ok(r.adjusted_p), "C20/selection/p-range", "adjusted_p = {:e} outside [1e-15,1]; {}", r.adjusted_p, show());
+    ensure!(
+        r.superiority >= 0.0 && r.superiority <= 1.0,
+        "C20/selection/superiority-range",
+        "superiority = {} outside [0,1]; {}",
+        r.superiority,
+        show()
+    );
+
+    // (c) the selected split scored by the two-sample primitives (before = values[..index])
+    let (before, after) = v.split_at(r.index);
+    let mw_p = mann_whitney_u_pvalue(before, after);
+    ensure!(
+        rel_close(r.tainted_p, mw_p, 1e-12),
+        "C20/selection/tainted-p-mismatch",
+        "tainted_p = {:e} but mann_whitney_u_pvalue(before, after) = {mw_p:e} at index {}; {}",
+        r.tainted_p,
+        r.index,
+        show()
+    );
+    let (after_gt2, _) = pair_counts(before, after);
+    let sup_want = after_gt2 as f64 / (2.0 * before.len() as f64 * after.len() as f64);
+    ensure!(
+        abs_close(r.superiority, sup_want, 1e-12),
+        "C20/selection/superiority-mismatch",
+        "superiority = {} but P(after > before) + P(tie)/2 by pair counting = {sup_want} at index {}; {}",
+        r.superiority,
+        r.index,
+        show()
+    );
+
+    // (d) documented clamp, and the rejection-boundary early exit
+    ensure!(
+        r.adjusted_p >= r.tainted_p,
+        "C20/selection/adjusted-below-tainted",
+        "adjusted_p = {:e} < tainted_p = {:e} (documented: clamped to be no smaller than the selected score); {}",
+        r.adjusted_p,
+        r.tainted_p,
+        show()
+    );
+    ctx.classify(if r.adjusted_p == 1.0 {
+        "adjusted:1.0"
+    } else if r.adjusted_p == r.tainted_p {
+        "adjusted:==tainted"
+    } else {
+        "adjusted:strictly-between"
+    });
+
+    // ---- which documented stage decides
+    let all_sizes_exact = exact_feasible(n / 2, n - n / 2);
+    let orderings = distinct_orderings(&groups);
+    let full_orbit = orderings <= budget as u128;
+    let splits = (n - 2 * mr + 1) as f64; // admissible split positions min_regime ..= n - min_regime
+    let near = |a: f64, b: f64| rel_close(a, b, 1e-9);
+    if r.tainted_p >= reject {
+        ctx.classify("stage:tainted>=reject (no calibration)");
+        ensure!(
+            r.adjusted_p == 1.0,
+            "C20/selection/reject-exit/not-no-evidence",
+            "tainted_p = {:e} >= reject_at_or_above = {reject:e} but adjusted_p = {:e} (expected the no-evidence value 1.0); {}",
+            r.tainted_p,
+            r.adjusted_p,
+            show()
+        );
+    } else if n == 2 * mr && all_sizes_exact {
+        // one admissible split: no selection took place among admissible splits
+        ctx.classify("stage:single-admissible-split");
+    } else if !all_sizes_exact {
+        ctx.classify(if full_orbit { "stage:approximate-sizes,full-orbit-fits" } else { "stage:approximate-sizes,subgroup" });
+    } else {
+        // every admissible split is exact: the union bound is (#admissible splits) * tainted_p
+        let wa_raw = splits * r.tainted_p / w;
+        let wa = wa_raw.min(1.0);
+        if near(wa_raw, accept) {
+            ctx.classify("stage:analytic-at-acceptance-boundary (skipped)");
+        } else if wa < accept {
+            ctx.classify("stage:analytic-decisive");
+            ensure!(
+                rel_close(r.adjusted_p, wa.max(r.tainted_p), 1e-12),
+                "C20/selection/analytic-certificate-mismatch",
+                "adjusted_p = {:e}; the union bound over {splits} exact admissible splits is {splits} * {:e}, weighted by {w} = {wa:e} < accept_analytic_below = {accept:e}; {}",
+                r.adjusted_p,
+                r.tainted_p,
+                show()
+            );
+        } else if !full_orbit {
+            ctx.classify("stage:subgroup-orbit (orderings > budget)");
+        } else if n > 20 {
+            ctx.classify("stage:full-orbit (n > 20: no brute force)");
+        } else {
+            ctx.classify("stage:full-orbit (brute-forced)");
+            let Some(o) = orbit_reference(&v, mr) else {
+                fail!("C20/selection/some-for-unreportable-split", "reference finds the observed split inadmissible; {}", show());
+            };
+            assert_eq!(o.orderings, orderings, "oracle: enumeration visits every distinct ordering once");
+            assert_eq!(o.index, r.index, "oracle: rank-form Pettitt location");
+            let p_obs = o.p_obs.0 as f64 / o.p_obs.1 as f64;
+            ensure!(
+                rel_close(r.tainted_p, p_obs, 1e-12),
+                "C20/selection/tainted-p-mismatch",
+                "tainted_p = {:e} but the exact doubled tail is {}/{}; {}",
+                r.tainted_p,
+                o.p_obs.0,
+                o.p_obs.1,
+                show()
+            );
+            let wp = o.extreme as f64 / o.orderings as f64 / (1.0 - w);
+            let full_raw = wa_raw.min(wp).max(p_obs);
+            let full = full_raw.min(1.0);
+            if near(full_raw, reject) {
+                ctx.classify("stage:full-orbit result at rejection boundary (skipped)");
+            } else if full < reject {
+                ctx.classify(if wp < wa { "combined:permutation-component" } else { "combined:analytic-component" });
+                ensure!(
+                    rel_close(r.adjusted_p, full, 1e-12),
+                    "C20/selection/full-orbit-mismatch",
+                    "adjusted_p = {:e} but {} of {} distinct orderings score <= the observed {}/{} (inadmissible = 1.0), permutation component {wp:e}, analytic component {wa:e}, weighted Bonferroni clamped at tainted_p = {full:e}; {}",
+                    r.adjusted_p,
+                    o.extreme,
+                    o.orderings,
+                    o.p_obs.0,
+                    o.p_obs.1,
+                    show()
+                );
+            } else {
+                ctx.classify("combined:>=reject");
+                ensure!(
+                    r.adjusted_p >= reject,
+                    "C20/selection/full-orbit-below-reject",
+                    "adjusted_p = {:e} < reject_at_or_above = {reject:e} but the complete combination is {full:e} ({} of {} orderings, analytic {wa:e}); {}",
+                    r.adjusted_p,
+                    o.extreme,
+                    o.orderings,
+                    show()
+                );
+            }
+        }
+    }
+
+    // (e) rank based: bit-identical under strictly increasing maps (verified in f64 first)
+    let want = sel_bits(Some(r));
+    let a = A_CHOICES[case.a_idx as usize];
+    let b = B_CHOICES[case.b_idx as usize];
+    let mut distinct: Vec<i64> = case.levels.clone();
+    distinct.sort_unstable();
+    distinct.dedup();
+    let transforms: [(&str, Vec<f64>); 3] = [
+        ("affine", v.iter().map(|&x| a * x + b).collect()),
+        ("cube", v.iter().map(|&x| x * x * x).collect()),
+        ("dense-integers", case.levels.iter().map(|k| distinct.binary_search(k).expect("present") as f64).collect()),
+    ];
+    let mut verified = 0;
+    for (name, y) in &transforms {
+        let ok = y.iter().all(|x| x.is_finite() && !(*x == 0.0 && x.is_sign_negative()))
+            && (0..n).all(|i| (0..n).all(|j| cmp(v[i], v[j]) == cmp(y[i], y[j])));
+        if !ok {
+            ctx.classify(&format!("{name}:not-order-preserving-in-f64 (skipped)"));
+            continue;
+        }
+        verified += 1;
+        ctx.classify(&format!("{name}:verified"));
+        let got_y = match vcommon::catch(|| selection_adjusted_change_point(y, mr, cal)) {
+            Ok(g) => sel_bits(g),
+            Err(msg) => fail!("C20/selection/panic", "panicked on the re-mapped series {y:?}: {msg}; {}", show()),
+        };
+        ensure!(
+            got_y == want,
+            format!("C20/selection/meta/{name}/changed"),
+            "(index, tainted_p, adjusted_p, superiority) {:?} -> {:?} under a strictly increasing map (a = {a:e}, b = {b:e}); {}",
+            Some(r),
+            got_y.map(|t| (t.0, f64::from_bits(t.1), f64::from_bits(t.2), f64::from_bits(t.3))),
+            show()
+        );
+    }
+
+    assert!(verified > 0, "the dense re-labelling is always order preserving");
+    if has_ties && n >= 2 * mr {
+        ctx.nontrivial();
+    }
+    Ok(())
+}
+
+// ================================================================================================
+// mean and sample standard deviation
+
+const STD_A: [f64; 8] = [0.5, 3.0, -2.0, 7.25, 1e-3, -1.0 / 3.0, 1e6, -1.0];
+const STD_B: [f64; 6] = [0.0, 1.0, -1e6, 0.1, 1e12, -0.3];
+
+#[derive(Debug, Clone, Serialize, Deserialize)]
+struct StdCase {
+    /// x_i = (offset + ks[i]) * 2^exp: an integer times a power of two, exact in f64
+    ks: Vec<i64>,
+    offset: i64,
+    exp: i32,
+    a_idx: u8,
+    b_idx: u8,
+}
+
+fn std_strategy() -> impl Strategy<Value = StdCase> {
+    let n = prop_oneof![2 => 0usize..=3, 5 => 2usize..=40, 2 => 41usize..=300, 1 => 301usize..=1000];
+    let w = prop_oneof![1 => Just(0i64), 2 => Just(1i64), 2 => Just(5i64), 2 => Just(1000i64), 2 => Just(1_000_000_000i64), 1 => Just(1i64 << 39)];
+    // 0; a billion in units of 1/1024; 2^40: the scatter is up to 12 orders below the level
+    let offset = prop_oneof![5 => Just(0i64), 1 => Just(1_000_000_000i64 * 1024), 1 => Just(1i64 << 40), 1 => Just(-(1i64 << 40)), 1 => -1000i64..=1000];
+    let exp = prop_oneof![5 => Just(-3i32), 1 => Just(0i32), 2 => Just(-10i32), 1 => Just(300i32), 1 => Just(-300i32)];
+    (n, w, offset, exp, 0u8..8, 0u8..6)
+        .prop_flat_map(|(n, w, offset, exp, a_idx, b_idx)| (prop::collection::vec(-w..=w, n), Just((offset, exp, a_idx, b_idx))))
+        .prop_map(|(ks, (offset, exp, a_idx, b_idx))| StdCase { ks, offset, exp, a_idx, b_idx })
+}
+
+/// Forward error bound of the documented algorithm (mean by recursive summation, deviations formed
+/// against that mean, squared, summed, divided by n-1, square root) with unit roundoff 2^-53, all
+/// first-order constants doubled (`f64::EPSILON` = 2 * 2^-53):
+///
+/// * mean: `|err| <= EPSILON * sum|x_i|` (recursive summation `(n-1)u sum|x|`, one division);
+/// * std: a mean error `d` turns `SS = sum (x_i - m)^2` into `SS + n d^2`; every other operation is
+///   a relative perturbation, `(n+3)u` on the variance in total, half of that on the root, plus the
+///   root's own rounding. So `|err| <= std * (n + 6) * EPSILON + sqrt((SS + n D^2)/(n-1)) -
+///   sqrt(SS/(n-1))` with `D` the mean bound. `ss_lower` is a lower bound of the true `SS`.
+fn std_tolerance(n: usize, std_exact: f64, ss_lower: f64, sum_abs: f64) -> f64 {
+    let nf = n as f64;
+    let d = f64::EPSILON * sum_abs;
+    let shift = nf * d * d / (nf - 1.0);
+    let base = ss_lower.max(0.0) / (nf - 1.0);
+    // sqrt(base + shift) - sqrt(base) without cancellation
+    let bracket = if shift == 0.0 { 0.0 } else { shift / ((base + shift).sqrt() + base.sqrt()) };
+    std_exact * (nf + 6.0) * f64::EPSILON + bracket * (1.0 + 8.0 * f64::EPSILON)
+}
+
+fn check_std(case: &StdCase, ctx: &mut Ctx) -> Verdict {
+    let n = case.ks.len();
+    let scale = 2.0f64.powi(case.exp);
+    assert!(scale == f64::from_bits(((1023 + i64::from(case.exp)) as u64) << 52), "2^exp is exact");
+    let ints: Vec<i128> = case.ks.iter().map(|&k| i128::from(case.offset) + i128::from(k)).collect();
+    let x: Vec<f64> = ints.iter().map(|&k| k as f64 * scale).collect();
+    for (&k, &xi) in ints.iter().zip(x.iter()) {
+        assert!(k.unsigned_abs() < 1 << 53 && xi.is_finite() && (xi / scale) as i128 == k, "x_i = K * 2^exp exactly");
+    }
+    let got_mean = mean(&x);
+    let got_sd = sample_std_dev(&x);
+    ctx.classify(match n {
+        0 => "n=0",
+        1 => "n=1",
+        2..=40 => "n:2-40",
+        41..=300 => "n:41-300",
+        _ => "n>300",
+    });
+    ctx.classify(&format!("scale:2^{}", case.exp));
+    // ---- documented degenerate answers
+    if n == 0 {
+        ensure!(got_mean.is_none(), "C20/mean/empty-not-none", "mean(&[]) = {got_mean:?} (documented None)");
+    }
+    if n < 2 {
+        ensure!(got_sd.is_none(), "C20/std-dev/short-not-none", "sample_std_dev of {n} point(s) = {got_sd:?} (documented None for fewer than two points)");
+        if n == 0 {
+            return Ok(());
+        }
+    }
+    // ---- exact rational definitions: mean = S1/n, SS = S2 - S1^2/n = (n S2 - S1^2)/n
+    let s1: i128 = ints.iter().sum();
+    let s2: i128 = ints.iter().map(|k| k * k).sum();
+    let nn = n as i128;
+    let sum_abs_int: i128 = ints.iter().map(|k| k.abs()).sum();
+    let sum_abs = sum_abs_int as f64 * scale;
+    let mean_exact = s1 as f64 / n as f64 * scale; // two correctly rounded operations, exact scaling
+    let Some(m) = got_mean else {
+        fail!("C20/mean/none-for-nonempty", "mean of {n} values is None; values {x:?}");
+    };
+    let mean_tol = f64::EPSILON * sum_abs;
+    ensure!(
+        (m - mean_exact).abs() <= mean_tol + 4.0 * f64::EPSILON * mean_exact.abs(),
+        "C20/mean/mismatch",
+        "mean = {m:e} but S1/n in integers = {mean_exact:e} (|diff| {:e} > EPSILON*sum|x| = {mean_tol:e}); values {x:?}",
+        (m - mean_exact).abs()
+    );
+    if n < 2 {
+        return Ok(());
+    }
+    let Some(sd) = got_sd else {
+        fail!("C20/std-dev/none-for-two-or-more", "sample_std_dev of {n} values is None; values {x:?}");
+    };
+    ensure!(sd >= 0.0 && sd.is_finite(), "C20/std-dev/not-finite-nonnegative", "sample_std_dev = {sd:e}; values {x:?}");
+    let num = nn * s2 - s1 * s1; // n * SS in integer units, >= 0 by Cauchy-Schwarz
+    assert!(num >= 0);
+    let var_exact = num as f64 / (nn * (nn - 1)) as f64;
+    let sd_exact = var_exact.sqrt() * scale;
+    let ss_exact = num as f64 / n as f64 * scale * scale;
+    let tol = std_tolerance(n, sd_exact, ss_exact * (1.0 - 8.0 * f64::EPSILON), sum_abs) + 8.0 * f64::EPSILON * sd_exact;
+    ensure!(
+        (sd - sd_exact).abs() <= tol,
+        "C20/std-dev/mismatch",
+        "sample_std_dev = {sd:e} but sqrt((n S2 - S1^2)/(n(n-1))) in integers = {sd_exact:e} (|diff| {:e} > tolerance {tol:e}, n = {n}); values {x:?}",
+        (sd - sd_exact).abs()
+    );
+    let constant = num == 0;
+    if constant {
+        // every partial sum j*K*2^exp may round; when none does the documented 0.0 is exact
+        ctx.classify(if sd == 0.0 { "constant:exactly-0.0" } else { "constant:nonzero-within-tolerance" });
+    } else {
+        let rel = (sd - sd_exact).abs() / sd_exact;
+        ctx.classify(if rel <= 4.0 * f64::EPSILON {
+            "std-error:<=4eps"
+        } else if rel <= 1e-12 {
+            "std-error:<=1e-12"
+        } else {
+            "std-error:>1e-12 (ill-conditioned, within bound)"
+        });
+        let cond = sum_abs / n as f64 / sd_exact;
+        ctx.classify(if cond > 1e9 {
+            "level/scatter:>1e9"
+        } else if cond > 1e3 {
+            "level/scatter:1e3..1e9"
+        } else {
+            "level/scatter:<=1e3"
+        });
+    }
+
+    // ---- affine map y = a*x + b evaluated in f64: |y_i - (a x_i + b)| <= 2u(|a x_i| + |b|)
+    let a = STD_A[case.a_idx as usize];
+    let b = STD_B[case.b_idx as usize];
+    let y: Vec<f64> = x.iter().map(|&xi| a * xi + b).collect();
+    if y.iter().all(|v| v.is_finite()) && (a * a * ss_exact).is_finite() {
+        let max_e = x.iter().map(|&xi| f64::EPSILON * (1.0 + 4.0 * f64::EPSILON) * ((a * xi).abs() + b.abs())).fold(0.0f64, f64::max);
+        let sum_abs_y: f64 = y.iter().map(|v| v.abs()).sum::<f64>() * (1.0 + n as f64 * f64::EPSILON);
+        let (Some(my), Some(sy)) = (mean(&y), sample_std_dev(&y)) else {
+            fail!("C20/std-dev/none-for-two-or-more", "mean/sample_std_dev of the mapped values is None");
+        };
+        let my_want = a * mean_exact + b;
+        let my_tol = f64::EPSILON * sum_abs_y + max_e + 4.0 * f64::EPSILON * ((a * mean_exact).abs() + b.abs());
+        ensure!(
+            (my - my_want).abs() <= my_tol,
+            "C20/mean/affine-mismatch",
+            "mean(a*x+b) = {my:e} but a*mean(x)+b = {my_want:e} (a = {a:e}, b = {b:e}, |diff| {:e} > {my_tol:e}); x = {x:?}",
+            (my - my_want).abs()
+        );
+        let sy_want = a.abs() * sd_exact;
+        // the rounding of the data moves the root-mean-square scatter by at most sqrt(n/(n-1)) * max_e
+        let data = (n as f64 / (n as f64 - 1.0)).sqrt() * max_e;
+        let ss_y = a * a * ss_exact;
+        let ss_y_lower = {
+            let r = ss_y.sqrt() * (1.0 - 8.0 * f64::EPSILON) - (n as f64).sqrt() * max_e;
+            if r > 0.0 { r * r } else { 0.0 }
+        };
+        let sy_tol = std_tolerance(n, sy_want + data, ss_y_lower, sum_abs_y) + data * (1.0 + 8.0 * f64::EPSILON) + 8.0 * f64::EPSILON * sy_want;
+        ensure!(
+            (sy - sy_want).abs() <= sy_tol,
+            "C20/std-dev/affine-mismatch",
+            "sample_std_dev(a*x+b) = {sy:e} but |a|*std(x) = {sy_want:e} (a = {a:e}, b = {b:e}, |diff| {:e} > {sy_tol:e}); x = {x:?}",
+            (sy - sy_want).abs()
+        );
+        ctx.classify(if sy_tol <= 1e-9 * sy_want { "affine:tight(<=1e-9 rel)" } else { "affine:data-rounding-dominates" });
+        if !constant {
+            ctx.nontrivial();
+        }
+    } else {
+        ctx.classify("affine:overflow (skipped)");
+    }
+    Ok(())
+}
+
+// ================================================================================================
 
 fn main() {
     let mut h = Harness::from_args("C20");
@@ -1096,6 +1787,25 @@ fn main() {
         cases,
         zero_strategy(),
         check_zero,
+    );
+
+
+    let cases = h.cases(10_000, 250_000);
+    h.section(
+        "selection",
+        "generated series (n in {0..12, 2*min_regime + 0..3, 2*min_regime - 1..3, 8..40, 41..56, 57..120}; levels = noise in [-w,w], w in {0,1,2,5,30,1000} (w <= 2 = heavy ties, w = 0 constant) + optional linear trend + step of -3..3 widths at a generated position 0..n; values k/8 in 2/3 of the cases, else integers, k*1e-300, k*1e290, 1e9+k/1024) x min_regime 1..6 x VALID calibrations only (permutation_order_budget in {1,2,24,720,5040,100000}, analytic_weight in {0.05,0.5,0.95,1e-12}, accept_analytic_below in {f64::MIN_POSITIVE,1e-6,0.01,0.5,1}, reject_at_or_above in {1,0.5,0.2,0.1,0.05,0.025,1e-3,1e-9}; 0.5, 0.2, 0.1 are attained exactly by small exact tails) for selection_adjusted_change_point. Asserted: no panic; None iff pettitt() is None or its split leaves < min_regime values on a side; index == pettitt().index (= first index of the after regime, also checked by direct sign summation) and min_regime <= index <= n - min_regime; tainted_p, adjusted_p in [1e-15,1], superiority in [0,1]; tainted_p == mann_whitney_u_pvalue(values[..index], values[index..]) (rel 1e-12); superiority == P(after > before) + P(tie)/2 by O(n1*n2) pair counting (abs 1e-12); adjusted_p >= tainted_p (documented clamp); tainted_p >= reject_at_or_above -> adjusted_p == 1.0; when every admissible split size is exact (n <= 56): the union bound is (#admissible splits) * tainted_p, and if that / analytic_weight (capped at 1) < accept_analytic_below it is the result (rel 1e-12); when moreover the number of distinct orderings n!/prod t_i! fits the budget and n <= 20: brute force over EVERY distinct ordering (same values and ties; Pettitt first maximum; inadmissible split = 1.0 and stays in the denominator; exact Mann-Whitney tails as integer rationals compared by cross-multiplication; ties count as extreme) gives the permutation component count/orderings/(1 - analytic_weight), and adjusted_p == max(tainted_p, min(1, analytic, permutation)) (rel 1e-12) when that is < reject_at_or_above, else adjusted_p >= reject_at_or_above (results within rel 1e-9 of a boundary are skipped and counted); finally the whole result is bit-identical under x -> a*x+b (a > 0), x -> x^3 and dense re-labelling, each first verified to preserve every comparison in f64. Non-trivial = Some(..) result for a series with >= 1 tie group and n >= 2*min_regime.",
+        cases,
+        sel_strategy(),
+        check_selection,
+    );
+
+    let cases = h.cases(60_000, 2_000_000);
+    h.section(
+        "std_dev",
+        "generated samples x_i = (offset + k_i) * 2^e, exact in f64 (n in {0..3, 2..40, 41..300, 301..1000}; k uniform in [-w,w], w in {0,1,5,1000,1e9,2^39}; offset in {0, 1e9*1024, +-2^40, -1000..1000} = scatter up to 12 orders below the level; e in {-3 (values k/8), 0, -10, 300, -300}). Documented degenerate answers: mean(&[]) = None, sample_std_dev of fewer than two points = None. Oracle: mean = S1/n and sample standard deviation = sqrt((n*S2 - S1^2)/(n(n-1))) (Bessel corrected) with S1, S2 exact i128 sums. Tolerance = forward error bound of the documented two-pass algorithm with every first-order constant doubled (eps = 2^-52): |mean err| <= eps*sum|x_i|; |std err| <= std*(n+14)*eps + sqrt((SS + n*D^2)/(n-1)) - sqrt(SS/(n-1)), D = eps*sum|x_i|, SS the exact sum of squared deviations (i.e. relative (n+14)*eps unless the scatter is below ~1e-8 of the level; classes report the observed error). Metamorphic: y = a*x+b in f64 (a in {0.5,3,-2,7.25,1e-3,-1/3,1e6,-1}, b in {0,1,-1e6,0.1,1e12,-0.3}): mean(y) = a*mean(x)+b and std(y) = |a|*std(x) within the same bound for y plus the rounding of the data themselves (each y_i is off by <= eps*(|a*x_i|+|b|), which moves the mean by at most that and the std by at most sqrt(n/(n-1)) times that). Non-trivial = n >= 2, >= 2 distinct values, mapped data finite.",
+        cases,
+        std_strategy(),
+        check_std,
     );
 
     h.finish()
